@@ -79,6 +79,14 @@ CLAIMED = {
             "exact mean of the calibrated temperature; *_mc_avg2_var/_avgx2_var vs 1/sum(1/var_i) of the per-cell Monte Carlo variances; "
             "label vs index selection of the same elements with re-seeded generators.",
             NOTE + "avg2/avgx2 values and tmpw_avg1 are Monte Carlo quantities: compared within their own 6-sigma / a quarter of |tmpf-tmpb|.", "§8 C09"),
+    "C10": ("Lean 4: permutation invariance and k^2 scaling of the sample variance, placement of residual rows; exact tagged placement correspondence for the three estimators; planted-noise statistics",
+            "Proof: C10_var_order_independent, C10_scale_equivariance, C10_residual_placement (for accepted sections every reference "
+            "location receives exactly one residual row), C10_row_location. Every run: fitting helpers replaced by tagging stubs, the "
+            "reshaped residual arrays of variance_stokes_constant/_exponential and the (intensity, residual) pairs of "
+            "variance_stokes_linear compared exactly with the model for shuffled dictionaries; var(ddof=1) vs the model; planted noise: "
+            "estimate within the chi-square 6-sigma band of s2(1-p/n), ~0 noise-free, x k^2 under scaling, order independent; planted "
+            "linear variance recovered.",
+            NOTE + "Convergence of Powell/LSQR and the bias factor are observed statistically.", "§8 C10"),
     "C14": ("Lean 4 theorems on the model of the Python slicing in shift_double_ended and of the argmin in suggest_cable_shift_double_ended + exhaustive differential correspondence",
             "Proof (all sizes, all |i|<=nx): C14_length, C14_pairing_nonneg/neg (st[j+i] with rst[j]; st[j] with rst[j-i]), "
             "C14_zero_identity, C14_compose_nonneg/neg, C14_inverse_interior, C14_suggest_member, C14_argmin_unique (a strictly "
@@ -102,6 +110,13 @@ CLAIMED = {
             "stretches on the half-integer lattice of a 4-point grid, sampled 3-4 stretch layouts, random larger layouts; "
             "x_indices and broadcast reference rows compared exactly.",
             NOTE + "Grid strictly increasing; equal starts may be ordered either way by numpy (verdict insensitive).", "§8 C16"),
+    "C17": ("Lean 4: get-after-set theorems on an attribute/coordinate map model under a round-tripping codec; operation-sequence correspondence with payload ids",
+            "Proof: C17_travel_calibrate, C17_travel_monte_carlo (for every codec with load(dump v) = v the result of calibrate_* and of "
+            "monte_carlo_* fed with it reports exactly the definitions passed in and carries trans_att), C17_storage_roundtrip. Every "
+            "run: calibrate -> monte carlo -> to_netcdf -> open_dataset on dictionaries with int/float/numpy bounds, 0-3 matching "
+            "pairs, 0-3 splices; .dts.sections, .dts.matching_sections, trans_att, coordinates and data compared; the same sequence on "
+            "the model with payload ids.",
+            NOTE + "Thin application (DESIGN §8 C17): the codec law of PyYAML/netCDF4 is an assumption, exercised not proved.", "§8 C17"),
     "C18": ("Lean 4: order-independence of the reference rows, translation/row-/column-permutation invariance of WLS, gain identities; pairs of real runs under each transformation",
             "Proof: C18_dict_order (accepted definitions with the same stretches give the same reference rows), C18_gain_weight, "
             "C18_gain_measurement_term, C18_gain_parameters (wls_translate), C18_row_order, C18_column_order. Every run: real "
